@@ -33,7 +33,7 @@ LEVEL_TEXT = ("Theorems (27, closed): a generic inclusion checker between shape 
               "cwd and every tree whose module files lie below the package's directories the dump raises exactly in the F6 situation (else TypeError for an "
               "unserialisable default, else a document), and every document produced validates; `loadable` is derived from a model of the loaders' "
               "construction sites (decorator line numbers from ast nodes, parameter kinds per ast.arguments bucket / inspect kind, section kinds per class, "
-              "file paths from the finder; inspected defaults always strings): src_ok s -> ploadable (build s); refutation witness for the known finding F7; "
+              "file paths from the finder; inspected defaults always strings; the __init__ the dataclasses extension synthesises): src_ok s -> ploadable (build s); refutation witness for the known finding F7; "
               "the witnesses of the repaired findings F1..F6, F8 validate. "
               "Ties on every run: validator model vs jsonschema (real, per-node, mutated documents); dump(model) vs as_json(full=True) -- documents and "
               "exceptions -- on generated regular / multi-portion namespace / stubs-package / inspector pass-through layouts, static and dynamic, with and "
@@ -52,7 +52,8 @@ MODEL_TARGETS = ["Model/C09_top.vo"]
 COQ_TARGETS = ["Proofs/C09_schema.vo", "Proofs/C09_mem.vo", "Proofs/C09_expr.vo", "Proofs/C09_enc.vo", "Proofs/C09_perm.vo", "Proofs/C09_paths.vo", "Proofs/C09_load.vo"]
 RULE = ("generated layouts under the scratch directory: regular packages (a fixed feature-complete module: every expression class reachable from "
         "source, all parameter kinds, decorators, bases, nested classes, properties, overloads, dataclass, wildcard/relative/external imports, __all__, "
-        "typing-only definitions; random modules/subpackages/namespace subdirectories/stubs with google/numpy/sphinx docstrings covering every section "
+        "typing-only definitions, dataclasses whose field(...) arguments are names / attributes / calls, a module whose sibling .pyi disagrees with it on "
+        "every signature (no parameters vs all kinds, fewer, renamed, stub-only functions / methods / classes), an in-package __init__.pyi; random modules/subpackages/namespace subdirectories/stubs with google/numpy/sphinx docstrings covering every section "
         "kind); native namespace packages over 1..3 search paths (the first two of a run have 2 and 3 portions) with modules and regular subpackages in "
         "every portion, a nested namespace over a random non-empty subset of the portions and a second level, pkg_resources-style portions, imports across "
         "portions; stubs-only packages on the same / another search path; inspector pass-through modules (defaults whose __name__ is an int / list / None / "
@@ -61,7 +62,7 @@ RULE = ("generated layouts under the scratch directory: regular packages (a fixe
         "directory, the file-system root; 1.5k/20k random (package path, module path, cwd) triples on API-built modules for the path functions; one "
         "builder case per function; one case per distinct node document and per whole document; mutated node documents for the validator tie; depth "
         "sweep 40..530 operands. non-trivial = node has an optional field, a kind-specific field or a parsed docstring; distinct by canonical JSON")
-TRUSTED = ["translators harness/translate/c09_schema.py (whitelisted JSON-schema keywords), c09_exprs.py, c09_load.py (all fail closed)",
+TRUSTED = ["translators harness/translate/c09_schema.py (whitelisted JSON-schema keywords), c09_exprs.py, c09_load.py (all fail closed; every Parameter(...) site of visitor / inspector / dataclasses extension / merger / loader must pass a kind that cannot be None)",
            "jsonschema Draft7Validator (the `$schema` the file names) as the authority for validity",
            "abstraction: harness reads name/path/Module._filepath/lineno/docstring/labels/members/bases/decorators/parameters/returns/value/annotation "
            "from live Griffe objects into the model tree; expressions field by field (dataclasses.fields), section items attribute by attribute; the cwd "
@@ -627,6 +628,17 @@ def feature_module(pkg):
     lines.append("class Guarded:\n    \"\"\"Class with typing-only members.\"\"\"\n    if TYPE_CHECKING:\n        tc_attr: int = 0\n"
                  "        def tc_method(self, p: TCAlias) -> int: ...\n        class TCInner: ...\n    real = 1\n")
     lines.append("@dataclasses.dataclass\nclass DC:\n    \"\"\"Dataclass.\"\"\"\n    fx: int\n    \"\"\"Field doc.\"\"\"\n    fy: str = 's'\n")
+    # dataclass fields whose field(...) arguments are names / attributes / calls, not only literals (each agrees with the class default,
+    # so that CPython's dataclasses.fields can serve as the authority for keyword-only-ness)
+    lines.append("KW_DEFAULT = False\n@dataclasses.dataclass\nclass DCF:\n    \"\"\"Dataclass with computed field arguments.\"\"\"\n"
+                 "    fa: int = dataclasses.field(default=0, kw_only=dataclasses.MISSING)\n"
+                 "    fb: int = dataclasses.field(default=a, kw_only=KW_DEFAULT)\n"
+                 "    fc: List[int] = dataclasses.field(default_factory=list, kw_only=bool(0), repr=not a)\n"
+                 "    fd: int = dataclasses.field(default=2, kw_only=True, metadata={'k': fn(1)})\n"
+                 "    fe: int = dataclasses.field(default=3, init=False)\n"
+                 "    ff: 'str' = dataclasses.field(default_factory=lambda: 's', kw_only=os.sep != os.sep)\n"
+                 "@dataclasses.dataclass(kw_only=True)\nclass DCK(DCF):\n    ga: int = 0\n    gb: int = dataclasses.field(default=1, kw_only=dataclasses.MISSING)\n"
+                 "    gc: int = dataclasses.field(kw_only=False, default=fn())\n")
     lines.append("__all__ = ['Base', 'allkinds', 'E0']\n")
     return "".join(lines)
 
@@ -661,6 +673,13 @@ def write_package(rng, root: Path, pkg: str, variant: str = "regular"):
     if rng.random() < 0.5:
         files[f"{base}/sub/__init__.py"] = gen_module(rng, pkg, subs, with_unresolvable=False)
         files[f"{base}/sub/leaf.py"] = gen_module(rng, pkg, [], with_unresolvable=False)
+    # stub-merged trees with signature mismatches between the concrete module and its stubs (sibling .pyi, in-package __init__.pyi)
+    files[f"{base}/stubbed.py"] = STUBBED_PY
+    files[f"{base}/stubbed.pyi"] = STUBBED_PYI
+    if rng.random() < 0.5:
+        files[f"{base}/__init__.py"] += "def init_placeholder(): ...\nclass InitHolder:\n    def meth(): ...\n"
+        files[f"{base}/__init__.pyi"] = ("from typing import Any\ndef init_placeholder(p: int, /, q: str = ..., *args: int, k: bool = ..., **kw: Any) -> int: ...\n"
+                                         "class InitHolder:\n    def meth(self, x: int = ...) -> str: ...\nVERSION: str\n")
     has_nsdir = rng.random() < 0.3
     if has_nsdir:
         # namespace subpackage inside a regular package (list filepath)
@@ -672,6 +691,8 @@ def write_package(rng, root: Path, pkg: str, variant: str = "regular"):
         where = "" if variant == "stubs-same" else f"stubs_{pkg}/"
         files[f"{where}{pkg}-stubs/__init__.pyi"] = "VERSION: str\n"
         files[f"{where}{pkg}-stubs/{subs[0]}.pyi"] = "def from_stubs_package(p: int) -> int: ...\n"
+        files[f"{where}{pkg}-stubs/feat.pyi"] = ("from typing import Any\nclass Guarded:\n    def from_stubs(self, a: int, /, b: str = ..., *c: int, d: bool, **e: Any) -> None: ...\n"
+                                                 "def allkinds(only_in_stub: int) -> None: ...\n")
         files[f"{where}{pkg}-stubs/only.pyi"] = '"""Only in the stubs package."""\ndef only_here(p: int = 0) -> str: ...\nclass OnlyStub:\n    at: int\n'
         if variant == "stubs-other":
             sps = [".", f"stubs_{pkg}"]
@@ -679,6 +700,34 @@ def write_package(rng, root: Path, pkg: str, variant: str = "regular"):
     return {"package": pkg, "variant": variant, "search_paths": sps, "files": files, "stubs": variant != "regular",
             "namespace_dirs": [f"{base}/nsdir"] if has_nsdir else []}
 
+
+STUBBED_PY = ('''"""Module whose stubs disagree with it."""
+def placeholder(): ...
+def fewer(a, b=1): ...
+def renamed(x, y): ...
+def same(p: int = 0) -> int: ...
+class WithStub:
+    """Class with a stub."""
+    def meth(): ...
+    def other(self, a): ...
+    @staticmethod
+    def sm(): ...
+''')
+STUBBED_PYI = ('''from typing import Any, overload
+def placeholder(p: int, /, q: str = ..., *args: int, k: bool = ..., **kw: Any) -> int: ...
+def fewer() -> None: ...
+def renamed(u: int, v: str) -> None: ...
+def same(p: int = ...) -> int: ...
+def only_in_stub(z: bytes, *, flag: bool = ...) -> None: ...
+class WithStub:
+    def meth(self, x: int = ...) -> str: ...
+    def other(self) -> None: ...
+    @staticmethod
+    def sm(a: int, b: int = ...) -> int: ...
+    def only_in_stub(self, *items: Any) -> None: ...
+class OnlyInStub:
+    def m(self, a: int) -> None: ...
+''')
 
 PKG_STYLE_INIT = "__import__('pkg_resources').declare_namespace(__name__)\n"
 
@@ -1063,6 +1112,7 @@ def check_builders(st: State, top, layout: dict, mode: str, label: dict):
         return
     root = st.root
     queries, expect, cases = [], [], []
+    synth = []
     if mode == "static":
         table = ast_functions(layout["files"])
         for o in funcs:
@@ -1072,7 +1122,10 @@ def check_builders(st: State, top, layout: dict, mode: str, label: dict):
             rel = os.path.relpath(str(fp), str(root))
             node = table.get((rel, o.lineno, o.name))
             if node is None:
-                ctx.observe("builders_static", "no ast node (synthesised or stub)")
+                if o.name == "__init__" and o.parent is not None and "dataclass" in o.parent.labels:
+                    synth.append(o)
+                    continue
+                ctx.observe("builders_static", "no ast node (stub)")
                 continue
             ctx.observe("builders_static", "compared")
             got = [d.lineno for d in o.decorators]
@@ -1083,6 +1136,8 @@ def check_builders(st: State, top, layout: dict, mode: str, label: dict):
             expect.append([[p.name, None if p.kind is None else p.kind.value, p.annotation is None,
                             p.default if (p.kind is not None and p.kind.value.startswith("variadic")) else (p.default is None)] for p in o.parameters])
             cases.append({**label, "path": o.path, "builder": "visitor"})
+        if synth:
+            check_synthesised(st, synth, layout, label, queries, expect, cases)
     else:
         added = [str((root / sp).resolve()) for sp in layout["search_paths"]]
         sys.path[0:0] = added
@@ -1115,14 +1170,16 @@ def check_builders(st: State, top, layout: dict, mode: str, label: dict):
         if r == ["bad-input"]:
             ctx.tie_failure("harness", "model rejected a builder query", {"query": q[0]}, case)
             continue
-        if q[0] == "visit-params":
+        if q[0] == "synth-kinds":
+            got = [(k[0] if k else None) for k in r]
+        elif q[0] == "visit-params":
             got = [[n, (k[0] if k else None), a == ["n"], (d if (k and k[0].startswith("variadic")) else d == ["n"])] for n, a, k, d, _oa, _od in r]
         else:
             got = [[n, (k[0] if k else None), "object" if oa == 1 else a, "object" if od == 1 else d] for n, a, k, d, oa, od in r]
             for _n, _a, _k, d, _oa, od in r:
                 ctx.observe("builders_inspect_default", "object" if od == 1 else ("string" if isinstance(d, str) else "none" if d == ["n"] else "raw"))
         for row in got:
-            ctx.observe("builders_kind", row[1])
+            ctx.observe("builders_kind", row if q[0] == "synth-kinds" else row[1])
         if no_addresses(got) != no_addresses(e):
             ctx.tie_failure("correspondence", f"{q[0]} (model of the construction site) vs the loader", {"model": got, "loader": e}, case)
 
@@ -1135,6 +1192,40 @@ def no_addresses(v):
     if isinstance(v, list):
         return [no_addresses(x) for x in v]
     return v
+
+
+def check_synthesised(st: State, synth, layout, label, queries, expect, cases):
+    """the __init__ the dataclasses extension synthesises (static load) vs CPython: import the class, ask dataclasses.fields which
+    __init__ fields are keyword-only, let the model (synth_init) give the kinds, compare with Griffe's parameters name by name"""
+    import dataclasses
+    import importlib
+    ctx = st.ctx
+    added = [str((st.root / sp).resolve()) for sp in layout["search_paths"]]
+    sys.path[0:0] = added
+    pkg = layout["package"]
+    try:
+        for o in synth:
+            try:
+                cls = importlib.import_module(o.module.path)
+                for part in o.parent.path[len(o.module.path) + 1:].split("."):
+                    cls = vars(cls)[part] if isinstance(cls, type) else getattr(cls, part)
+                kw = {f.name: bool(f.kw_only) for f in dataclasses.fields(cls) if f.init}
+            except Exception:  # noqa: BLE001
+                ctx.observe("builders_static", "synthesised __init__: class not importable")
+                continue
+            names = [p.name for p in o.parameters]
+            if not names or names[0] != "self" or any(n not in kw for n in names[1:]):
+                ctx.observe("builders_static", "synthesised __init__: fields differ from CPython's")
+                continue
+            ctx.observe("builders_static", "synthesised __init__ compared")
+            queries.append(["synth-kinds", [kw[n] for n in names[1:]]])
+            expect.append([None if p.kind is None else p.kind.value for p in o.parameters])
+            cases.append({**label, "path": o.path, "builder": "dataclasses extension"})
+    finally:
+        for a in added:
+            sys.path.remove(a)
+        for m in [m for m in sys.modules if m == pkg or m.startswith(pkg + ".")]:
+            del sys.modules[m]
 
 
 def enc_or_object(v):
